@@ -233,6 +233,21 @@ def make_config_case(rng, client_flag, builder_flag, source, target):
                                                        "bit": bit, "effective": effective, "sent": data}}}
 
 
+def make_mixed_case(rng, codec, inner_idx):
+    """uncompressed messages followed by a compressed batch in ONE set (a topic fed by producers with different settings); an inner
+    message of the batch was altered before compression, the batch's own checksum is intact: the fetch is rejected (validation on)"""
+    spec = {"brokers": brokers(1), "topics": {TOPIC: [1]}, "logs": {}}
+    ops = boot_ops(spec) + [T("set_fetch_crc_validation", [1])]
+    entries = [P(0, b"k", b"first"), P(1, None, b"second"), ("wrap", codec, 3, [P(2, None, b"a"), P(3, b"k", b"b")])]
+    path = (2, inner_idx)
+    n = len(clean_message(entries, path, None)) - 12
+    bit = rng.randrange(0, 8 * n)
+    data = build_set(entries, path, None, xor_of_bits(n, [bit]))
+    body = {"topics": [{"topic": TOPIC, "partitions": [{"partition": 0, "error": 0, "highwatermark": 4, "message_set": data}]}]}
+    ops.append({"op": T("fetch_messages", [[fp(TOPIC, 0, 0)]]), "mutate": {"kind": "body", "api": "fetch", "body": body}})
+    return {"cluster": spec, "ops": ops, "meta": {"nboot": 3, "jobs": [], "mixed": {"codec": codec, "inner": inner_idx, "bit": bit}}}
+
+
 def make_two_broker_case(rng, flag, target, order):
     """one fetch call answered by two brokers: the first partition's set is intact, the other broker's set holds the altered message"""
     spec = {"brokers": brokers(2), "topics": {TOPIC: [1, 2]}, "logs": {(TOPIC, 0): [P(0, b"k", b"intact-0"), P(1, None, b"intact-1")]}}
@@ -309,6 +324,10 @@ def gen(rng, tier):
             for client_flag in ((None, 0, 1) if source == "client" else (None,)):
                 for builder_flag in (None, 0, 1):
                     cases.append(make_config_case(rng, client_flag, builder_flag, source, target))
+    for codec in ("gzip", "snappy"):
+        for inner_idx in (0, 1):
+            for _ in range(2 if quick else 12):
+                cases.append(make_mixed_case(rng, codec, inner_idx))
     # one damaged set among the answers of two brokers
     for target in (("plain-key", "gzip-wrapper") if quick else ("plain-key", "plain-middle", "gzip-wrapper", "snappy-wrapper", "inner-gzip")):
         for flag in ((1, 0) if content_bits(*corpus()[target][:2]) else (1,)):
@@ -339,6 +358,17 @@ CORRUPT = T("err", [T("kafka", [2])])
 def oracle(case, recs, cl):
     fails = []
     meta = case["meta"]
+    if meta.get("mixed"):
+        c = meta["mixed"]
+        what = "plain messages then a %s batch, bit %d of its inner message %d altered before compression, validation on" % (c["codec"], c["bit"], c["inner"])
+        if len(recs) < len(case["ops"]):
+            return ["C04: %s: case stopped early: %s" % (what, dumps(recs[-1]["impl"])[:100])]
+        res = recs[-1]["impl"]
+        if res.name in ("panic", "hang", "abort"):
+            return ["C04: %s: fetch crashed: %s" % (what, dumps(res)[:80])]
+        if res != CORRUPT:
+            fails.append("C04: %s: expected (err (kafka 2)), got %s" % (what, dumps(res)[:140]))
+        return fails
     if meta.get("two_brokers"):
         c = meta["two_brokers"]
         what = "two brokers, %s bit %d in the second broker's answer, validation %s" % (c["target"], c["bit"], "on" if c["flag"] else "off")
@@ -425,7 +455,7 @@ def oracle(case, recs, cl):
 
 
 def nontrivial(case, recs):
-    if case["meta"].get("config") or case["meta"].get("two_brokers"):
+    if case["meta"].get("config") or case["meta"].get("two_brokers") or case["meta"].get("mixed"):
         return len(recs) == len(case["ops"])
     jobs = case["meta"]["jobs"]
     return len(recs) == len(case["ops"]) and any(j and j["validate"] and any(j["xor"]) for j in jobs)
